@@ -270,7 +270,16 @@ impl Run {
                 }
             }
         }
-        let _ = (t0, before);
+        let _ = before;
+        // attribute the wall time to the family announced last
+        if let Some(J::Obj(kv)) = self.families.last_mut() {
+            let add = t0.elapsed().as_secs_f64();
+            if let Some((_, J::Num(w))) = kv.iter_mut().find(|(k, _)| k.as_str() == "wall_s") {
+                *w += add;
+            } else {
+                kv.push(("wall_s".into(), J::Num(add)));
+            }
+        }
     }
 
     pub fn family(&mut self, desc: String, count: u64) {
